@@ -20,4 +20,23 @@ theorem seek_beyond (s : Seq) (t gran : Rat) (fuel : Nat) (h0 : ¬ t < 0) (h : t
 theorem rewind_pos (s : Seq) : (rewind s).cur = s.beginPos ∧ (rewind s).atEnd = false := by
   simp [rewind]
 
+/-- **a seek never changes whether looping is enabled** (it switches looping off while it fast-forwards and restores the
+    flag on every path, also when the fast-forward runs into the end of the song) -/
+theorem seek_keeps_loop_flag (s : Seq) (t gran : Rat) (fuel : Nat) : (seek s t gran fuel).1.loopEnabled = s.loopEnabled := by
+  unfold seek
+  split
+  · rfl
+  · split
+    · simp [rewind]
+    · simp only
+      repeat' split
+      all_goals simp [rewind]
+
+/-- during a seek the row loop skips every note-on before it reaches `handleEvent`: no note is started -/
+theorem rowEvents_seek_skips_noteOn (tk : Nat) (t : Rat) (e : Ev) (es : List Ev) (last : Int) (r : RowRes) (h : e.type = tNoteOn) :
+    rowEvents true tk t (e :: es) last r = rowEvents true tk t es last r := by
+  have hb : (true && e.type == tNoteOn) = true := by simp [h]
+  conv => lhs; unfold rowEvents
+  simp only [hb, if_true]
+
 end Opn.C08
